@@ -6,7 +6,7 @@ CONSTANTS
   MaxKw = 2
   MaxSteps = 2
   MaxRebind = 1
-  CtorModeSet = {"distinct", "equal"}
+  CtorModeSet = {"distinct", "equal", "asdefault"}
   CallModeSet = {"distinct", "equal", "asbound"}
   FlagAtSet = {"init", "call"}
   AsCoded = FALSE
@@ -16,6 +16,7 @@ VIEW view
 INVARIANT TypeOK
 INVARIANT EffectiveWellDefined
 INVARIANT ResultComplete
+INVARIANT ReportedSetsAreEffective
 PROPERTY CallIsPure
 PROPERTY FullBindAgrees
 PROPERTY LateBindAgrees
